@@ -74,7 +74,7 @@ var addCmd = &cobra.Command{
 			return errors.New("nothing specified, nothing added")
 		}
 		for _, arg := range args {
-			if _, err := os.Stat(arg); os.IsNotExist(err) {
+			if _, err := os.Stat(arg); err != nil {
 				// If the file does not exist but is registered in the index, delete it from the index
 				// but not delete here, just check it
 				cleanedArg := filepath.Clean(arg)
@@ -95,7 +95,7 @@ var addCmd = &cobra.Command{
 			}
 
 			// If the file does not exist but is registered in the index, delete it from the index
-			if _, err := os.Stat(arg); os.IsNotExist(err) {
+			if _, err := os.Stat(arg); err != nil {
 				_, _, isEntryFound := client.Idx.GetEntry([]byte(cleanedArg))
 				if !isEntryFound {
 					return fmt.Errorf(`path "%s" did not match any files`, arg)
@@ -112,7 +112,7 @@ var addCmd = &cobra.Command{
 			}
 
 			// directory
-			if f, err := os.Stat(arg); !os.IsNotExist(err) && f.IsDir() {
+			if f, err := os.Stat(arg); err == nil && f.IsDir() {
 				filePaths, err := file.GetFilePathsUnderDirectory(path)
 				if err != nil {
 					return fmt.Errorf("fail to get file path under directory: %w", err)
